@@ -310,4 +310,5 @@ func suiteBytes(c *Ctx) {
 		c.Violation("C12", "node-wedged", fmt.Sprintf("after the byte stream UpdateState(%d) did not take effect: height is %d", before+3, uint64(ml.State().Height())), "suite bytes")
 	}
 	_ = primitives.BlockHeight(0)
+	hugeViewRound(c, w, adv)
 }
